@@ -5,6 +5,7 @@ import (
 	"os"
 	"testing"
 
+	"verifsim/cssim"
 	"verifsim/kit"
 	"verifsim/mgmtsim"
 	"verifsim/objsim"
@@ -51,6 +52,8 @@ func TestSim(t *testing.T) {
 		kit.Drive(t, fwsim.Engine{}, a)
 	case "tablesim":
 		kit.Drive(t, tablesim.Engine{}, a)
+	case "cssim":
+		kit.Drive(t, cssim.Engine{}, a)
 	default:
 		fmt.Fprintln(os.Stderr, "no engine", a.Engine, "for property", a.Prop)
 		os.Exit(2)
